@@ -289,7 +289,56 @@ func runC18(w *World, r *Report) {
 	r.Check(strings.Join(got, " ") == strings.Join(want, " "), "C18.topology", "agent graph shape", newAgent.Pos(), strings.Join(got, " "), "extracted agent graph is "+strings.Join(got, " ")+"; want "+strings.Join(want, " ")+" (model and tools no longer alternate strictly)")
 	// which arm: tools->model only when there is no return-directly tool; the direct-return wiring only otherwise
 	fTRD := w.Field("flow/agent/react", "AgentConfig", "ToolReturnDirectly")
-	isLenTRD := func(v ssa.Value) bool { return isLenOf(v, func(x ssa.Value) bool { return isLoadOfField(x, fTRD) }) }
+	// the configured set itself, or the agent's own copy of it (a map filled by ranging over the configured one)
+	isTRDSet := func(x ssa.Value) bool {
+		if isLoadOfField(x, fTRD) {
+			return true
+		}
+		// through the cell of a captured local
+		resolve := func(v ssa.Value) ssa.Value {
+			if ld, ok := v.(*ssa.UnOp); ok {
+				if al, ok := ld.X.(*ssa.Alloc); ok {
+					var only ssa.Value
+					n := 0
+					for _, ref := range *al.Referrers() {
+						if st, ok := ref.(*ssa.Store); ok && st.Addr == ssa.Value(al) {
+							n++
+							only = st.Val
+						}
+					}
+					if n == 1 {
+						return only
+					}
+				}
+			}
+			return v
+		}
+		mk, ok := resolve(x).(*ssa.MakeMap)
+		if !ok {
+			return false
+		}
+		copied := false
+		var mus []*ssa.MapUpdate
+		instrs(newAgent, func(in ssa.Instruction) {
+			if mu, ok := in.(*ssa.MapUpdate); ok && resolve(mu.Map) == ssa.Value(mk) {
+				mus = append(mus, mu)
+			}
+		})
+		for _, mu := range mus {
+			// the key comes from a Next over a Range of the configured set
+			if ex, ok := mu.Key.(*ssa.Extract); ok {
+				if nx, ok := ex.Tuple.(*ssa.Next); ok {
+					if rg, ok := nx.Iter.(*ssa.Range); ok && isLoadOfField(rg.X, fTRD) {
+						copied = true
+						continue
+					}
+				}
+			}
+			return false
+		}
+		return copied
+	}
+	isLenTRD := func(v ssa.Value) bool { return isLenOf(v, isTRDSet) }
 	{
 		var brdCall, edgeCall ssa.Instruction
 		instrs(newAgent, func(in ssa.Instruction) {
@@ -413,6 +462,91 @@ func runC18(w *World, r *Report) {
 			if fv.Name() == "ctx" {
 				r.Info("C18.capture", w.fname(lit)+" reads the constructor's ctx", lit.Pos(), "the branch condition passes NewAgent's ctx (not the per-call ctx) to the tool-call checker: a read, not a write; listed for the record")
 			}
+		}
+	}
+
+	r.Rule("C18.config-frozen", "the agent's behaviour is fixed when it is built: no function literal created by NewAgent (state generator, state handlers, branch conditions — all of which outlive the call) captures the *AgentConfig parameter; what they need was copied into locals, like the model, the tools and the modifier are. And the step limit is a counter, not a size: no make in flow/agent/react takes a length or capacity computed from MaxStep", 2)
+	{
+		var cfgP *ssa.Parameter
+		for _, p := range newAgent.Params {
+			if pt, ok := p.Type().(*types.Pointer); ok {
+				if n := namedOf(pt.Elem()); n != nil && n.Obj().Name() == "AgentConfig" {
+					cfgP = p
+				}
+			}
+		}
+		if cfgP == nil {
+			undecidedf("C18.config-frozen: NewAgent has no *AgentConfig parameter")
+		}
+		nlit := 0
+		var visit func(fn *ssa.Function)
+		visit = func(fn *ssa.Function) {
+			instrs(fn, func(in ssa.Instruction) {
+				mc, ok := in.(*ssa.MakeClosure)
+				if !ok {
+					return
+				}
+				lit := mc.Fn.(*ssa.Function)
+				nlit++
+				bad := ""
+				for i, b := range mc.Bindings {
+					v := b
+					if al, ok := b.(*ssa.Alloc); ok {
+						for _, ref := range *al.Referrers() {
+							if st, ok := ref.(*ssa.Store); ok && st.Addr == ssa.Value(al) && st.Val == ssa.Value(cfgP) {
+								v = cfgP
+							}
+						}
+					}
+					if v == ssa.Value(cfgP) {
+						bad = lit.FreeVars[i].Name()
+					}
+				}
+				r.Check(bad == "", "C18.config-frozen", w.fname(lit)+" does not capture the caller's config", lit.Pos(), "free variables are locals copied at construction", "the literal reads the caller's *AgentConfig at run time (captured "+bad+"): re-using the config struct to build a second agent — assign a field, call NewAgent again — silently changes the first one (the return-directly set consulted by the tools node's pre-handler no longer matches the topology that was built from it), and a config value is re-read on every run")
+				visit(lit)
+			})
+		}
+		visit(newAgent)
+		if nlit < 3 {
+			undecidedf("C18.config-frozen: only %d function literals in NewAgent", nlit)
+		}
+		fMax := w.Field("flow/agent/react", "AgentConfig", "MaxStep")
+		nmk := 0
+		for _, fn := range w.RepoFuncs("flow/agent/react") {
+			instrs(fn, func(in ssa.Instruction) {
+				mk, ok := in.(*ssa.MakeSlice)
+				if !ok {
+					return
+				}
+				nmk++
+				dep := false
+				for _, v := range []ssa.Value{mk.Len, mk.Cap} {
+					seen := map[ssa.Value]bool{}
+					var walk func(v ssa.Value, d int)
+					walk = func(v ssa.Value, d int) {
+						if v == nil || d > 12 || seen[v] || dep {
+							return
+						}
+						seen[v] = true
+						if f, _ := loadedField(v); f != nil && sameField(f, fMax) {
+							dep = true
+							return
+						}
+						if ins, ok := v.(ssa.Instruction); ok {
+							for _, op := range ins.Operands(nil) {
+								if *op != nil {
+									walk(*op, d+1)
+								}
+							}
+						}
+						if fv, ok := v.(*ssa.FreeVar); ok && strings.Contains(strings.ToLower(fv.Name()), "maxstep") {
+							dep = true
+						}
+					}
+					walk(v, 0)
+				}
+				r.Check(!dep, "C18.config-frozen", fmt.Sprintf("%s: make #%d is not sized by the step limit", w.fname(fn), nmk), mk.Pos(), "length / capacity independent of MaxStep", "the step limit is used as an allocation size, paid on every run before the model is called: MaxStep = math.MaxInt ('no limit') overflows MaxStep+1 and the run panics out of Generate / Stream ('makeslice: cap out of range', outside any node, nothing recovers it), MaxStep = 1<<26 allocates 512 MiB for a one-step conversation")
+			})
 		}
 	}
 
